@@ -991,13 +991,13 @@ static LY_ERR
 json_print_node(struct jsonpr_ctx *pctx, const struct lyd_node *node)
 {
     if (!lyd_node_should_print(node, pctx->options)) {
-        if (json_print_array_is_last_inst(pctx, node)) {
-            json_print_array_close(pctx);
+        if (!json_print_array_is_last_inst(pctx, node)) {
+            return LY_SUCCESS;
         }
-        return LY_SUCCESS;
-    }
 
-    if (!node->schema) {
+        /* close the array of the preceding printed instances, it was printed on this level */
+        json_print_array_close(pctx);
+    } else if (!node->schema) {
         LY_CHECK_RET(json_print_opaq(pctx, (const struct lyd_node_opaq *)node));
     } else {
         switch (node->schema->nodetype) {
